@@ -219,10 +219,36 @@ def coq_props(pid, extra_targets=(), translators=()):
     return res
 
 
-def coqchk(pid, timeout=1500):
-    """Re-check props/<pid>.vo and everything it depends on with the
-    independent checker; returns (ok, axioms, summary)."""
-    rc, out = sh(['coqchk', '-o', '-Q', '.', 'PA', 'PA.props.%s' % pid], cwd=COQ, timeout=timeout)
+def pa_modules_of(pid):
+    """Logical names of the modules of this development that props/<pid>.v
+    depends on (transitively), from coqdep."""
+    seen, todo = [], ['props/%s.v' % pid]
+    while todo:
+        f = todo.pop()
+        if f in seen or not os.path.exists(os.path.join(COQ, f)):
+            continue
+        seen.append(f)
+        rc, out = sh(['coqdep', '-Q', '.', 'PA', f], cwd=COQ, timeout=120)
+        for m in re.finditer(r'(?:\./)?((?:base|model|gen|proofs|props)/[A-Za-z0-9_]+)\.vo', out):
+            v = m.group(1) + '.v'
+            if v not in seen:
+                todo.append(v)
+    return ['PA.' + f[:-2].replace('/', '.') for f in seen]
+
+
+def coqchk(pid, timeout=1800):
+    """Re-check props/<pid>.vo and every module of THIS development it depends
+    on with the independent checker (-norec: the installed libraries -- stdlib,
+    mathcomp, Coquelicot, Flocq, Interval -- are taken as compiled; re-checking
+    Interval alone takes more than half an hour).
+    Returns (status, axioms, summary) with status in ok / failed / timeout."""
+    mods = pa_modules_of(pid)
+    args = ['coqchk', '-o', '-Q', '.', 'PA']
+    for m in mods:
+        args += ['-norec', m]
+    rc, out = sh(args, cwd=COQ, timeout=timeout)
+    if rc == 124:
+        return 'timeout', [], 'coqchk did not finish within %d s' % timeout
     ok = rc == 0 and 'Modules were successfully checked' in out
     axioms = []
     m = re.search(r'\* Axioms:(.*?)\n\s*\n\* Constants', out, re.S)
@@ -233,7 +259,8 @@ def coqchk(pid, timeout=1500):
         mm = re.search(r'%s:\s*(.*?)\n\s*\n' % re.escape(label), out + '\n\n', re.S)
         if mm and mm.group(1).strip() not in ('<none>', ''):
             bad.append(label + ': ' + mm.group(1).strip()[:200])
-    return ok and not bad, axioms, (out[-600:] if not ok else 'ok') + ('; '.join(bad))
+    status = 'ok' if (ok and not bad) else 'failed'
+    return status, axioms, ('%d modules of this development re-checked' % len(mods) if status == 'ok' else out[-600:]) + ('; '.join(bad))
 
 
 HEADER_CASES = 'From Coq Require Import List ZArith QArith Bool.\nImport ListNotations.\n'
